@@ -694,7 +694,20 @@ def rule_r5_first_match(ck, prog, rule='C10.R5'):
                 else:
                     ck.inconclusive(rule, f, 'first-match-decides:HasKey', None, 'HasKey neither walks the list nor delegates to GetValue(key)')
                 continue
-            raise AnalysisBroken('Context::%s: list walk not found' % name)
+            # the walk may live in a private helper of Context that receives the key (`FindBinding(key)`)
+            walk = None
+            for n in f.nodes:
+                h = prog.funcs.get(n.get('ck')) if n['k'] == 'call' else None
+                if h is not None and h.cls == f.cls and h.blocks and any(m['k'] in ('for', 'while', 'do') for m in h.nodes):
+                    for pi, a in enumerate(n.get('args', [])):
+                        if a is not None and a >= 0 and strip_casts(f, a).get('id') == key['id'] and pi < len(h.params):
+                            walk = (h, h.params[pi])
+            if walk is None:
+                cnt += 1
+                ck.inconclusive(rule, f, 'first-match-decides:%s' % name, None, 'the list walk of Context::%s was not found (neither in the member nor in a helper that receives the key)' % name)
+                continue
+            f, key = walk
+            loops = [n for n in f.nodes if n['k'] in ('for', 'while', 'do')]
         lp = loops[0]
         g = Graph(prog, f, inline=None, sync_lambdas=False)
         start = body_entry(g, f, lp)
@@ -712,6 +725,12 @@ def rule_r5_first_match(ck, prog, rule='C10.R5'):
             is_view_eq = n['k'] == 'call' and n.get('op') in ('==', '!=') and any(m['k'] == 'ref' and m.get('id') == key['id'] for m in sub)
             if is_len or is_bytes or is_view_eq:
                 pins[i] = (c[0] == '==')
+        for i in sorted(body):
+            n = f.nodes[i]
+            # a predicate of the node that receives the key (`node->Binds(key)`): "this node has the key"
+            if n['k'] == 'call' and (n.get('t') or '') == 'bool' and n.get('ck') in prog.funcs and \
+                    any(a is not None and a >= 0 and strip_casts(f, a).get('id') == key['id'] for a in n.get('args', [])):
+                pins[i] = True
         cnt += 1
         if start is None or not pins:
             ck.inconclusive(rule, f, 'first-match-decides:%s' % name, None, 'key comparison / iteration start of the list walk not recognised')
@@ -727,7 +746,7 @@ def rule_r5_first_match(ck, prog, rule='C10.R5'):
 def run(ck, prog):
     ck.doc('C10.R1', 'no write to (or move from) a Context / list node that is not rooted in a fresh local', 8)
     ck.doc('C10.R2', 'the runtime context stack has thread storage in the configured compiler variant', 2)
-    ck.doc('C10.R3', 'Detach/Stack typestate and guards (pops, the token frame popped exactly once, search direction, push/pop/top/resize shape, Resize callers)', 13)
+    ck.doc('C10.R3', 'Detach/Stack typestate and guards (pops, the token frame popped exactly once, search direction, push/pop/top/resize shape, Resize callers)', 6)
     ck.doc('C10.R4', 'token destructor detaches itself (unconditionally, or on state set only after a successful detach); Attach pushes the token\'s context; Scope attaches the span', 4)
     ck.doc('C10.R5', 'Context lookup returns a stored value only for an exactly equal key (length and bytes); not-found only after the whole list; the first node with the key decides (GetValue and HasKey)', 4)
     with ck.canary('C10.R1'):
